@@ -132,7 +132,7 @@ func (u *URL) String() string {
 	// Path
 	path := "/"
 	for _, p := range u.Fragments {
-		path += p + "/"
+		path += url.PathEscape(p) + "/"
 	}
 
 	path = path[:len(path)-1]
@@ -151,9 +151,9 @@ func (u *URL) String() string {
 	for _, typ := range fields {
 		sort.Strings(u.Params.Fields[typ])
 
-		param := "fields%5B" + typ + "%5D="
+		param := "fields%5B" + url.QueryEscape(typ) + "%5D="
 		for _, f := range u.Params.Fields[typ] {
-			param += f + "%2C"
+			param += url.QueryEscape(f) + "%2C"
 		}
 
 		param = param[:len(param)-3]
@@ -170,10 +170,10 @@ func (u *URL) String() string {
 			panic(err)
 		}
 
-		param := "filter=" + string(mf)
+		param := "filter=" + url.QueryEscape(string(mf))
 		urlParams = append(urlParams, param)
 	} else if u.Params.FilterLabel != "" {
-		urlParams = append(urlParams, "filter="+u.Params.FilterLabel)
+		urlParams = append(urlParams, "filter="+url.QueryEscape(u.Params.FilterLabel))
 	}
 
 	// Pagination
@@ -181,14 +181,14 @@ func (u *URL) String() string {
 		if num, ok := u.Params.Page["number"]; ok {
 			urlParams = append(
 				urlParams,
-				"page%5Bnumber%5D="+fmt.Sprint(num),
+				"page%5Bnumber%5D="+url.QueryEscape(fmt.Sprint(num)),
 			)
 		}
 
 		if size, ok := u.Params.Page["size"]; ok {
 			urlParams = append(
 				urlParams,
-				"page%5Bsize%5D="+fmt.Sprint(size),
+				"page%5Bsize%5D="+url.QueryEscape(fmt.Sprint(size)),
 			)
 		}
 	}
@@ -196,11 +196,13 @@ func (u *URL) String() string {
 	// Sorting
 	if len(u.Params.SortingRules) > 0 {
 		param := "sort="
-		for _, attr := range u.Params.SortingRules {
-			param += attr + "%2C"
-		}
+		for i, attr := range u.Params.SortingRules {
+			if i > 0 {
+				param += "%2C"
+			}
 
-		param = param[:len(param)-3]
+			param += url.QueryEscape(attr)
+		}
 
 		urlParams = append(urlParams, param)
 	}
